@@ -19,6 +19,52 @@ package hash
 // Concurrent.Hash computes the digest spec function DG over the current file state (C04 is the
 // property that relates this contract to the body; until then the body is trusted).
 //@ func (Concurrent).Hash
-//@ trusted worker pool with goroutines and channels: see C04/C18
-//@ ensures result1 == nil ==> result0 == DG(fsid, files)
-//@ ensures ioOK ==> result1 == nil
+//@ props C01 C02 C14 C04 C18
+//@ modifies hbuf, nrcv, rcvHash, rcvFile, rcvErr
+//@ ensures [C04,digest] result1 == nil ==> result0 == DG(fsid, files)
+//@ ensures [C18,error-means-no-digest] result1 != nil ==> result0 == ""
+//@ ensures [C18,errors-propagate] result1 == nil ==> forall k int :: {rcvErr[k]} 0 <= k && k < nrcv ==> rcvErr[k] == nil
+//@ at entry: ghost nrcv = 0
+//@ at return recv#0: ghost rcvHash = store(rcvHash, nrcv, received.hash)
+//@ at return recv#0: ghost rcvFile = store(rcvFile, nrcv, received.file)
+//@ at return recv#0: ghost rcvErr = store(rcvErr, nrcv, received.err)
+//@ at return recv#0: ghost nrcv = (recvok ? nrcv + 1 : nrcv)
+//@ at call Stable#0: use hash_pool(accumulator, files)
+//@ loop 0: invariant nrcv == 0
+//@ loop 1: invariant nrcv >= 0 && len(accumulator) == nrcv
+//@ loop 1: invariant forall k int :: {accumulator[k]} 0 <= k && k < nrcv ==> accumulator[k] == itemOf(rcvHash[k], rcvFile[k])
+//@ loop 1: invariant forall k int :: {errors[k]} 0 <= k && k < len(errors) ==> errors[k] != nil
+//@ loop 1: invariant len(errors) == 0 ==> (forall k int :: {rcvErr[k]} 0 <= k && k < nrcv ==> rcvErr[k] == nil)
+
+// worker: per received path, nothing is sent for a directory and exactly one result otherwise; a result
+// without error carries the SHA-256 of the file content. No nil dereference on files that cannot be opened.
+//@ func worker
+//@ props C04 C18 C01
+//@ modifies hbuf, wStarted, wSent, wFile
+//@ at entry: ghost wStarted = false
+//@ at return Open#0: ghost wStarted = true
+//@ at return Open#0: ghost wFile = file
+//@ at return Open#0: ghost wSent = 0
+//@ at call send#0: assert [C18,send-open-error] sent.file == wFile && sent.err != nil && wSent == 0
+//@ at call send#0: ghost wSent = wSent + 1
+//@ at call send#1: assert [C18,send-stat-error] sent.file == wFile && sent.err != nil && wSent == 0
+//@ at call send#1: ghost wSent = wSent + 1
+//@ at call send#2: assert [C04,send-digest] sent.file == wFile && wSent == 0 && !isDir(fsid, wFile) && (sent.err == nil ==> sent.hash == sha(contentBytes(fsid, wFile)))
+//@ at call send#2: ghost wSent = wSent + 1
+//@ loop 0: invariant [C04,one-result-per-file] wStarted ==> (wSent == 1 || (wSent == 0 && isDir(fsid, wFile)))
+
+// producer closure: every listed path is sent exactly once, in order, then the jobs channel is closed
+//@ func (Concurrent).Hash$1
+//@ props C04 C18
+//@ modifies nJobs
+//@ at entry: ghost nJobs = 0
+//@ at call send#0: assert [C04,producer-sends-each-path-once] sent == files[$i] && nJobs == $i
+//@ at call send#0: ghost nJobs = nJobs + 1
+//@ at call close#0: assert [C18,jobs-closed-after-last-send] nJobs == len(files)
+//@ loop 0: invariant 0 <= $i && $i <= len(files) && nJobs == $i
+//@ loop 0: decreases len(files) - $i
+
+// closer closure: results is closed only after every worker has called Done (structural: Wait precedes close)
+//@ func (Concurrent).Hash$2
+//@ props C04 C18
+//@ ensures true
